@@ -72,9 +72,10 @@ def write_fil(path: Path, vals: np.ndarray, nchans: int, nbits: int, **hdr) -> i
     return len(h)
 
 
-def write_set(dirpath: Path, base: str, data2d: np.ndarray, nbits: int, split: list[int], **hdr) -> list[str]:
+def write_set(dirpath: Path, base: str, data2d: np.ndarray, nbits: int, split: list[int], longname: bool = False, **hdr) -> list[str]:
     """Write a contiguous multi-file set.  data2d has shape (nsamples, nchans); split gives the number
-    of samples per file.  tstart of each file is advanced so that the set is contiguous."""
+    of samples per file.  tstart of each file is advanced so that the set is contiguous.  longname: the original file name
+    recorded in the header is a full archive path (well over the 80 characters of the original C tools)."""
     n, c = data2d.shape
     assert sum(split) == n
     tsamp = hdr.get("tsamp", 0.001)
@@ -88,7 +89,7 @@ def write_set(dirpath: Path, base: str, data2d: np.ndarray, nbits: int, split: l
         hh["tsamp"] = tsamp
         # header lengths differ from file to file (rawdatafile is the one key allowed to differ in a set)
         hh.setdefault("extra", {})
-        hh["extra"] = dict(hh["extra"], rawdatafile="scan_" + "9" * (1 + 2 * i) + ".fil")
+        hh["extra"] = dict(hh["extra"], rawdatafile=("/archive/2026/10/01/" + "deep/" * 20 if longname else "") + "scan_" + "9" * (1 + 2 * i) + ".fil")
         write_fil(p, data2d[at:at + k].ravel(), c, nbits, **hh)
         names.append(str(p))
         at += k
@@ -99,7 +100,13 @@ def identity_data(n: int, c: int, nbits: int, rng=None, mode: str = "identity") 
     """(n, c) integer sample values representable at the depth.  'identity': value = (t*c+ch) mod 2^nbits
     (injective when n*c <= 2^nbits; at 32 bits always injective); 'random': seeded uniform values."""
     top = 2 ** min(nbits, 16) if nbits < 32 else 2 ** 16
-    if mode == "identity" or rng is None:
+    if mode == "runs" and rng is not None:
+        # runs of all-zero samples between runs of non-zero ones (run length 1..3): whole blocks of a gulped read are then zero,
+        # which is where a reader that skips "empty" work, or reuses a buffer, shows
+        r = int(rng.integers(1, 4))
+        a = rng.integers(1, max(2, top), size=(n, c), dtype=np.int64)
+        a[(np.arange(n) // r) % 2 == 1] = 0
+    elif mode == "identity" or rng is None:
         a = (np.arange(n * c, dtype=np.int64) % top).reshape(n, c)
     else:
         a = rng.integers(0, top, size=(n, c), dtype=np.int64)
